@@ -119,12 +119,12 @@ func (g *G) anyExpr() *Expr {
 	case 2:
 		return &Expr{K: "num", Text: g.pick(amtPool)}
 	case 3:
-		return &Expr{K: "str", Text: g.pick([]string{"hello", "a b", "a b", "", "x-1_y"})}
+		return &Expr{K: "str", Text: g.pick([]string{"hello", "a b", "a b", "", "x-1_y", " paid late ", "vip ", " x"})}
 	case 4:
 		if g.bad() {
 			return &Expr{K: "portion", Text: g.pick([]string{"3/2", "1/0", "101%"})}
 		}
-		return &Expr{K: "portion", Text: g.pick([]string{"1/2", "25%", "3/7", "12.5%", "0%", "100%"})}
+		return &Expr{K: "portion", Text: g.pick([]string{"1/2", "25%", "3/7", "12.5%", "0%", "100%", "2.05%", "10.01%", "0.5%"})}
 	case 5:
 		return g.monetary("")
 	case 6:
@@ -364,7 +364,7 @@ func (g *G) Case() Input {
 		}
 	}
 	if g.r.Chance(1, 10) {
-		in.ExtraMeta = map[string]string{g.pick(keyPool): "v"}
+		in.ExtraMeta = map[string]string{g.pick(keyPool): g.pick([]string{"v", "v", "", " "})}
 	}
 	return in
 }
@@ -383,7 +383,7 @@ func (g *G) varValue(ty string) string {
 	case "monetary":
 		return g.pick(assetPool) + " " + g.pick(amtPool)
 	case "portion":
-		return g.pick([]string{"1/2", "1/3", "25%", "0%", "100%", "7/13"})
+		return g.pick([]string{"1/2", "1/3", "25%", "0%", "100%", "7/13", "2.05%", "10.01%", "0.05%"})
 	}
 	return g.pick([]string{"hello", "", "x y"})
 }
